@@ -85,3 +85,45 @@ class ForEach:
             s.emit("foreach", over=it, elem=elem, bodies=bodies, name=self.name)
             return [("fall", None, s)]
         return eng.lift(eng.ev(node.iter, st), f)
+
+
+class ForInvariant:
+    """`for x in L` over a function-list (kind 'flist': symbolic length n, element function elem(st, i)) cut at an invariant over
+    the number k of elements already processed: name.init (k = 0), name.step (k -> k+1); exit with k == n."""
+
+    def __init__(self, chk, name, inv, havoc, desc=""):
+        self.chk, self.name, self.inv, self.havoc, self.desc = chk, name, inv, havoc, desc
+
+    def __call__(self, eng, node, st):
+        chk = self.chk
+
+        def f(it, s):
+            stor = s.get(it)
+            if stor.get("__kind__") != "flist":
+                raise Unsupported("ForInvariant needs a function-list")
+            n = stor["len"]
+            chk.prove(self.name + ".init", s.pc, self.inv(eng, s, z3.IntVal(0)), desc=f"loop invariant holds before the first element: {self.desc}")
+            k = z3.Int(eng_fresh("k"))
+            self.havoc(eng, s)
+            s.assume(z3.And(k >= 0, k <= n, self.inv(eng, s, k)))
+            out = []
+            for more, s1 in eng.branch(s, k < n):
+                if not more:
+                    out.extend(eng.exec_block(node.orelse, s1) if node.orelse else [("fall", None, s1)])
+                    continue
+                elem = stor["elem"](s1, k)
+                for s2 in eng.assign(node.target, elem, s1):
+                    for k2, v2, s3 in eng.exec_block(node.body, s2):
+                        if k2 in ("fall", "continue"):
+                            chk.prove(self.name + ".step", s3.pc, self.inv(eng, s3, k + 1), desc=f"processing one more element preserves the invariant: {self.desc}")
+                        elif k2 == "break":
+                            out.append(("fall", None, s3))
+                        else:
+                            out.append((k2, v2, s3))
+            return out
+        return eng.lift(eng.ev(node.iter, st), f)
+
+
+def eng_fresh(prefix):
+    from .values import fresh_name
+    return fresh_name(prefix)
